@@ -383,6 +383,16 @@ def check(case, rec):
                     raise Violation("fromLazy", f"fromLazy({kind}) stores {gotm}, lazy iteration gave {wantm}")
                 if eager.isLazy():
                     raise Violation("fromLazy", "fromLazy returned a lazy fiber")
+                if kind in ("project", "prune"):
+                    # the eager fiber is a fiber of its own: updating it in place leaves the lazy fiber (and the
+                    # fiber it was made from) as they were -- "iterated repeatedly with identical results"
+                    for p in eager.payloads:
+                        for q in (p.payloads if isinstance(p, Fiber) else [p]):
+                            q += 1
+                    three = [(c, observe.snap(p)) for c, p in iterate(lazy, f"lazy {kind} (3rd)")]
+                    if three != one:
+                        raise Violation("lazy-reiterate", f"lazy {kind}: after updating the materialised copy in place the "
+                                        f"lazy fiber yields {three}, before {one}")
             if kind != "<<":
                 S.unchanged(f"lazy {kind}")
             rec.cls("lazy")
